@@ -217,7 +217,9 @@ func (s *Sys) Boot() error {
 		inc.cfgs, err = configuration.NewAtomixStore(inc.client)
 		must(err)
 		inc.reg = pluginregistry.NewPluginRegistry("fake-plugin:5152")
-		inc.reg.NewClientFn(func(endpoint string) (adminapi.ModelPluginServiceClient, error) { return s.Plugin, nil })
+		inc.reg.NewClientFn(func(endpoint string) (adminapi.ModelPluginServiceClient, error) {
+			return &incPlugin{Plugin: s.Plugin, inc: ctx}, nil
+		})
 		inc.reg.Start()
 		mk := func(name string, rec controller.Reconciler, part func(controller.ID) string, ws ...controller.Watcher) {
 			c := NewCtl(s.K, ctx, name, rec, part)
